@@ -11,7 +11,7 @@ def build(tier):
                                      timeout=400 if quick else 2400))
     # index titles: prefix given / defaulted, separator '.' / '::', recursive and not
     obs.append(trees.tree_ob("C14 titles", "S4", "tree", dict(base, auto_ex=False), fixrev=True, fixexcl=True, timeout=400 if quick else 2400,
-                             prefixes=("P", "P.", "p::", "a b"), note=" (prefix menu incl. prefixes ending in the separator)"))
+                             prefixes=("P", "P.", "p::", "a b", "my.cmake_p"), note=" (prefix menu incl. prefixes ending in the separator)"))
     # beyond the quantifier (directories holding only mixed-case *.CMAKE files under auto-exclusion etc.): closure only
     for sk in (["S2b"] if quick else ["S2b", "S2", "S4"]):
         obs.append(trees.tree_ob("C14 closure", sk, "closure", dict(base, recursive=True, auto_ex=True, has_prefix=False, sep2=False), fixrev=True,
